@@ -15,6 +15,8 @@ Empt == {v \in 1..Len(cfg.vlens) : cfg.vlens[v] = 0}
 MinOf(S) == CHOOSE x \in S : \A y \in S : x <= y
 Norm(v) == IF v \in Empt THEN MinOf(Empt) ELSE v
 Keys == 1..cfg.nk
+\* normalisation for the reset line itself (cfg is not set yet)
+Norm0(e, v) == LET em == {x \in 1..Len(e.vlens) : e.vlens[x] = 0} IN IF v \in em THEN MinOf(em) ELSE v
 
 \* probe of key k: <<getFound, getVal, has, sizeFound, size, err>>
 ProbeRules(pr, m) ==
@@ -55,7 +57,10 @@ Next ==
   /\ LET e == Trace[l] IN
        IF e.e = "reset"
        THEN /\ cfg' = e
-            /\ kv' = [k \in 1..e.nk |-> 0]
+            /\ kv' = [k \in 1..e.nk |-> IF e.init[k] > 0 THEN Norm0(e, e.init[k]) ELSE 0]
+       ELSE IF e.e = "openfail"
+       THEN /\ Flag(e, {"continuation-open-failed"})
+            /\ UNCHANGED <<kv, cfg>>
        ELSE LET m2 == IF e.e = "put" /\ e.r = "" THEN [kv EXCEPT ![e.k] = Norm(e.v)]
                       ELSE IF e.e = "rem" /\ e.r = "" THEN [kv EXCEPT ![e.k] = 0]
                       ELSE kv
